@@ -105,6 +105,7 @@ def run(ck):
     r7_lagrange(ck, w)
     r8_instance_split(ck, w)
     r9_instance_count(ck, w)
+    r10_api_totality(ck, w)
     from ..engines import fsbind
     ck.rule('C20.R6', 'Fiat–Shamir statement binding: in ipa_prove / ipa_verify and the in-circuit parse_trace every statement input (bases, claimed values, key, '
                       'instances) is absorbed before the first challenge is squeezed from the same transcript')
@@ -272,3 +273,40 @@ def r9_instance_count(ck, w):
     ck.record('C20.R9', 'LightAggregator::verify:exact-instance-count', bool(prep) and ok, 'the instance vector length is compared with the keygen count (!=, escaping)',
               'LightAggregator::verify hands prepare() an instance vector whose length is derived from counts read from the proof and never compares it with the '
               'number of public inputs the aggregator circuit binds: a forged aggregated proof with one extra accumulator base verifies', hirq.fn_loc(f))
+
+
+LA_ = 'midnight_aggregator::light_aggregator::LightAggregator::'
+C20_PANIC_TRIAGE = {
+    LA_ + 'aggregate_proofs|panic|assert': 'sanity checks on the batched accumulator and on sizes computed from inner proofs that were verified one by one just before',
+    LA_ + 'aggregate_proofs|index|alloc::vec::Vec[core::ops::range::RangeTo]': 'the Lagrange commitments cover the whole domain (C20.R7); the number of accumulator bases '
+                                                                             'is bounded by the rows of the committed-instance column',
+    LA_ + 'aggregate_proofs::{closure#1}|unwrap|Result::unwrap': 'conversion of the per-proof instances to [F; 2]: guarded by the length check at the top of the function',
+    LA_ + 'verify|index|alloc::vec::Vec[core::ops::range::RangeTo]': 'guarded by `bases1.len() > lagrange_commitments.len() -> Err` just above',
+}
+
+
+def r10_api_totality(ck, w):
+    from ..engines import panics
+    ck.rule('C20.R10', 'the public aggregation API answers with a Result: every explicit panic site (assert!/unwrap/expect/index/slice range) in the bodies of '
+                       'LightAggregator::aggregate_proofs and ::verify (closures included) is triaged (C20_PANIC_TRIAGE, one reason per site).  aggregate_proofs '
+                       'documents "# Errors: if some of the provided proofs are invalid": asserting the validity of an inner proof panics instead')
+    total = 0
+    for m in ('aggregate_proofs', 'verify'):
+        root = LA_ + m
+        if w.mir_body(root, required=False) is None:
+            ck.bad('C20.R10', f'{root}:anchor', f'{root} not found (anchor)')
+            continue
+        seen = set()
+        for nid in panics.own_bodies(w, root):
+            b = w.mir_body(nid)
+            for s_ in panics.sites(b):
+                key = f'{nid}|{s_["kind"]}|{s_["detail"]}'
+                if key in seen:
+                    continue
+                seen.add(key)
+                total += 1
+                tri = C20_PANIC_TRIAGE.get(key)
+                ck.record('C20.R10', key, tri is not None, 'triaged: ' + str(tri),
+                          f'untriaged panic site in {nid}: {s_["kind"]} {s_["detail"]}: an invalid inner proof (or a malformed input) must yield Err, not a panic',
+                          reach.loc(b, s_['term']))
+    ck.floor('C20.R10', 'panic sites inspected', total, 3)
